@@ -248,7 +248,15 @@ impl<W: 'static, R: 'static, T: 'static> XSequence<W, R, T> {
             return Ok(Err(base0));
         }
         let Some(len0) = seq0.len() else { return Err("first sequence is infinite"); };
-        if seq1.len().map_or(false, |len1| len0.checked_add(len1).is_none()) {
+        // the midpoints of the new chain must fit a usize: the whole of a finite right operand, or
+        // the finite parts in front of the infinite last part of a right-hand chain
+        let finite_len1 = seq1.len().unwrap_or_else(|| match seq1 {
+            Self::Chain {
+                midpoint_lengths, ..
+            } => *midpoint_lengths.last().unwrap(),
+            _ => 0,
+        });
+        if len0.checked_add(finite_len1).is_none() {
             return Err("sequence is too long");
         }
         let (parts, midpoint_lengths) = match (seq0, seq1) {
